@@ -129,9 +129,10 @@ def k_assoc(run, case):
     use_default_offset = offset == 0.0 and rng.random() < .5
     with gen.logging_state(rng) as log_state:
         if use_default_offset:
-            out = contracts.outcome_of(sync.associate_trajectories, tr1, tr2, max_diff)
+            out = contracts.outcome_of(sync.associate_trajectories, tr1, tr2, gen.spell_float(rng, max_diff))
         else:
-            out = contracts.outcome_of(sync.associate_trajectories, tr1, tr2, max_diff, offset)
+            out = contracts.outcome_of(sync.associate_trajectories, tr1, tr2, gen.spell_float(rng, max_diff),
+                                       gen.spell_float(rng, offset))
     order = "first shorter" if len(t1) < len(t2) else "second shorter" if len(t1) > len(t2) else "equal"
     sign = "offset>0" if offset > 0 else "offset<0" if offset < 0 else "offset=0"
     run.seen(case, core.digest(t1, t2, max_diff, offset), cls=["stamps:" + kind, order + ", " + sign, "evo logger " + log_state,
@@ -234,7 +235,19 @@ def _drive_first(run, case, t1, t2, max_diff, offset, pairs, exact):
                                      pfx="indices")
 
 
-KINDS = {"assoc": k_assoc, "indices": k_indices}
+def k_cli(run, case):
+    """
+    Association end to end: evo_ape / evo_rpe with time offsets, --t_max_diff (incl. 0) and time
+    cropping - the pose pairs that reach the metric must be the documented association of the
+    (cropped) reference with the offset-corrected estimate (C01's / C02's executor and reference
+    pipeline, which associates with the exact-rational model of this check).
+    """
+    from vmon.props import C01, C02
+    rec = (C01.k_cli if case.get("tool", "ape") == "ape" else C02.k_cli)(run, case)
+    run.hit("evo_ape / evo_rpe runs with time offsets and cropping judged" if rec else "run refused / ambiguous (not judged)")
+
+
+KINDS = {"assoc": k_assoc, "indices": k_indices, "cli": k_cli}
 
 CORPUS = [
     # contested nearest counterpart (design finding F2)
@@ -265,7 +278,10 @@ def main(run):
     if run.tier == "thorough":
         for i in run.mine(64):
             k_assoc(run, run.case("assoc", 2 * 10**6 + i, big=True))
-    run.need("assoc: pair within max_diff", "assoc: paired with a nearest counterpart",
+    for i in run.mine({"quick": 100, "thorough": 2500}[run.tier]):
+        k_cli(run, run.case("cli", i, tool=["ape", "rpe"][i % 2], fmt=["tum", "euroc"][(i // 2) % 2],
+                            force_options=["crop"] if i % 3 else []))
+    run.need("evo_ape / evo_rpe runs with time offsets and cropping judged", "assoc: pair within max_diff", "assoc: paired with a nearest counterpart",
              "assoc: every uncontested in-range pose is paired",
              "assoc: increasing order, no pose used twice", "inputs unmodified",
              "output pose is an unmodified copy (pose+stamp together)",
